@@ -85,7 +85,11 @@ func workerMain(kind string) {
 	defer os.RemoveAll(dir)
 	ctx := &workerCtx{dir: dir}
 	in := bufio.NewReaderSize(os.Stdin, 1<<20)
-	out := bufio.NewWriter(os.Stdout)
+	// the protocol channel is the original stdout; the code under test may
+	// print to os.Stdout (e.g. file names in a dry run): send that to stderr
+	proto := os.Stdout
+	os.Stdout = os.Stderr
+	out := bufio.NewWriter(proto)
 	for {
 		line, err := in.ReadBytes('\n')
 		if len(bytes.TrimSpace(line)) > 0 {
